@@ -120,6 +120,17 @@ struct SimCore
     {
         Plan const& p = *plan;
         std::size_t const n = x.size();
+
+        if (!c.log_calls && weight_is_free && p.fk == F_CONST && proj == nullptr)
+        {
+            // volume runs (up to 2^31 calls): constant integrand, nothing but the cheap statistics
+            IterStat& st = c.stats[c.cur_iter];
+            ++st.nz;
+            ++st.fin;
+            r.f = 0.75L;
+            return T(0.75);
+        }
+
         long double xl[MAXD];
         for (std::size_t i = 0; i != n && i != MAXD; ++i) xl[i] = x[i];
 
